@@ -639,7 +639,14 @@ class Sweep(object):
         for i, sn in enumerate(segs):
             if i % self.nchunks != self.chunk:
                 continue
-            self.sweep_segment(sn, lib.SEGMENTS[sn])
+            try:
+                self.sweep_segment(sn, lib.SEGMENTS[sn])
+            except Exception as ex:   # noqa - an access the sweep takes for granted (an existing child by its own name) raised
+                import traceback
+                tb = traceback.extract_tb(ex.__traceback__)
+                site = next(('%s:%s' % (os.path.basename(f.filename), f.name) for f in reversed(tb) if 'hl7apy' in f.filename), '?')
+                self.fail('alias-raises', 'addressing a child of a segment of the tables by one of its names raised', parent_kind='segment',
+                          parent=sn, exception=type(ex).__name__, message=str(ex)[:200], site=site)
             n += 1
             if self.limit and n >= self.limit:
                 break
